@@ -17,7 +17,8 @@ import RuxModel.Model.Gates
   (for `A` the acts are the account pairs), acts `m<n>` mark, `n` Next, `a` Abort, `s<code>` WriteHeader,
   `b<hex>` Write.
 -/
-namespace Rux.Drv
+namespace Rux.Drv.GatesE
+open Rux.Drv
 open Rux.Gates
 
 def optHex (s : String) : Option (Option Bytes) :=
@@ -163,4 +164,8 @@ def gatesStep (_ : Unit) : List String → Unit × String
 
 def gatesEngine : Engine := { σ := Unit, init := (), step := gatesStep }
 
+end Rux.Drv.GatesE
+
+namespace Rux.Drv
+export GatesE (gatesEngine)
 end Rux.Drv
